@@ -38,10 +38,19 @@ def make(prog, seed, **kw):
     return nas, x, model
 
 
-def set_winners(combs, winners, rep):
+def set_winners(combs, winners, rep, via=None):
+    """the three ways coefficients get written in practice (the library itself assigns `.data` in optimize_prec_assignment):
+    in-place copy under no_grad, `.data` re-assignment, in-place copy into `.data` (the last two do not bump the version counter)"""
     with torch.no_grad():
         for (_, m), w in zip(combs, winners):
-            m.alpha.copy_(_reps(m.n_branches, w)[rep % 3])
+            t = _reps(m.n_branches, w)[rep % 3]
+            v = rep if via is None else via
+            if v % 3 == 0:
+                m.alpha.copy_(t)
+            elif v % 3 == 1:
+                m.alpha.data = t.clone()
+            else:
+                m.alpha.data.copy_(t)
 
 
 def has_fblk_winner(prog, winners):
@@ -78,7 +87,9 @@ def run_case(case, seed):
             label = {'winners': list(winners), 'rep': rep}
             if only is not None and only != label:
                 continue
-            set_winners(combs, winners, rep)
+            # the way of writing rotates independently of the representative, so that every change of winner is
+            # made through each of the three write paths somewhere in the enumeration
+            set_winners(combs, winners, rep, via=res['states'] // 3 + rep)
             res['states'] += 1
             res['transitions'] += len(winners)
             res['evals'] += 1
